@@ -1337,6 +1337,37 @@ fn dispatch(name: &str, a: &mut Args) -> String {
 			let (k, n) = (a.u8(), a.u8());
 			format!("{}", lightning::ln::msgs::verif_hooks::socket_address_len(k, n))
 		},
+		"wire_dispatch_battery" => {
+			// key-free peer messages as raw frames (2-byte type + an all-zero payload of the message's minimal valid shape)
+			// through wire::read as the peer handler calls it: the decoded message must report the type number of the frame
+			// and re-encode to the same frame. Output: "<bad> <total>"
+			let z = |n: usize| vec![0u8; n];
+			let cat = |a: Vec<u8>, b: &[u8]| { let mut v = a; v.extend_from_slice(b); v };
+			let frames: Vec<(u16, Vec<u8>)> = vec![
+				(16, z(4)), (17, z(34)), (1, z(34)), (18, z(4)), (19, z(2)), (7, z(2)), (9, z(2)), (2, z(33)), (2, cat(z(32), &[1])),
+				(66 + 1, z(32 + 8 + 8 + 2)), (68, cat(z(32), &[0, 0, 0, 0, 0, 0, 0, 9])), (69, cat(z(32), &[0, 0, 0, 0, 0, 0, 0, 9])), (70, z(32)),
+				(72, z(32 + 4 + 4)), (73, z(32)), (74, z(34)), (38, z(34)), (134, z(36)), (131, z(32 + 8 + 2)), (135, z(32 + 8 + 32 + 2)),
+				(130, z(32 + 8 + 32)), (265, z(40)), (263, z(40)), (262, z(33)), (261, cat(z(32), &[0, 1, 0])), (264, cat(z(32 + 9), &[0, 1, 0])),
+				(127, z(34)),
+			];
+			let (mut bad, mut total) = (0u32, 0u32);
+			for (t, payload) in frames {
+				total += 1;
+				let mut frame = t.to_be_bytes().to_vec();
+				frame.extend_from_slice(&payload);
+				let r = std::panic::catch_unwind(|| lightning::ln::wire::verif_hooks::read_framed(&frame));
+				match r {
+					Ok(Ok((tid, re))) if tid == t && re == frame => {},
+					other => {
+						bad += 1;
+						if std::env::var("ORACLE_DEBUG").is_ok() {
+							eprintln!("wire_dispatch_battery: type {}: {:?}", t, other.map(|x| x.map(|(a, b)| (a, b.len()))));
+						}
+					},
+				}
+			}
+			format!("{} {}", bad, total)
+		},
 		"final_onion_payload_order" => {
 			// <blinded> <keysend> <invreq> <n> <type>*3 -> "1" iff the written payload is a TLV stream with strictly
 			// increasing types that carries every requested record (the first <n> of the three types are used)
